@@ -18,6 +18,9 @@ Ties (all against the *current* source selected by NUTILS_SRC):
            announced shape / dtype / ndim / arguments are compared with the evaluated ndarray; consumer rewrites
            (`simplified`, `optimized_for_numpy`) must preserve the value.
 (V) func   `function.Array` compositions on samples of small topologies: announced shape / dtype / arguments vs result.
+(V) funcargs (c06_funcargs.py) random programs of the operations that REWRITE the announced-arguments table (replace_arguments in every
+           spelling of the specification, derivative, linearize, field, integral, bind) over colliding argument names: announced table
+           vs independent set algebra, evaluation with exactly the announced arguments, perturbation of the others.
 """
 import itertools, collections, functools, math
 import numpy
@@ -424,7 +427,7 @@ def run(c):
               'result; distinct by (class, ranges).  consumers: the five range-consuming _simplified rules x the same grid, non-trivial when a rewrite fires.  '
               'expr: random expressions of the Lean expression language (depth 1-4, loops, Take, RavelIndex, _SizesToOffsets, computed lengths) built as real DAGs, with '
               'honest argument values; non-trivial when more than one node; distinct by tokens+values.  dag: random real DAGs over ~45 classes; one case per '
-              'integer sub-node (evaluated at every loop iteration), non-trivial when it has entries.  func: function.Array compositions on samples; one case per array.')
+              'integer sub-node (evaluated at every loop iteration), non-trivial when it has entries.  func: function.Array compositions on samples; one case per array.  funcargs: random programs of replace_arguments / Array.replace / derivative / linearize / field / integral / bind over arrays that depend on several arguments whose names are all strings of length 1-3 over a 2-3 letter alphabet (substrings of each other), every spelling of the specification (string, dict, tuples of strings, pairs of names / Argument objects / arrays); one case per array, non-trivial when not a leaf, distinct by (operation text, announced names, shape).')
     c.assumptions += ['64-bit overflow of numpy integers is not modelled (Python ints are unbounded)',
                       'RavelIndex is used with ia >= 0 only (documented domain: ia indexes an axis of length na; all construction sites pass dofmaps, Range or x % n)']
     broken = c.build_and_audit()
@@ -448,6 +451,8 @@ def run(c):
     guarded('expr', stream_expr)
     guarded('dag', stream_dag)
     guarded('func', stream_func)
+    from . import c06_funcargs
+    guarded('funcargs', lambda c: c06_funcargs.stream_funcargs(c, time_limit, EvalTimeout))
     for b in broken:
         c.broken_no_input('proof', b, dict(detail=b))
 
